@@ -510,3 +510,4 @@ META = {
 }
 
 META['explanation'] += ' ' + 'Further: the guesser inserts a capitalisation transition after every alpha transition (shared from C03); alpha words use lower() only.'
+META['explanation'] += ' ' + "Round 14: the counted context-sensitive value is the text of the section; the scorer's loader keeps every line."
